@@ -61,10 +61,21 @@ def main():
                 print(f"  {p}: exit={rc} keys={keys[:4]} ({len(keys)})")
         out_dir = os.path.join(VERIF, "seeded", sid)
         os.makedirs(out_dir, exist_ok=True)
-        shutil.copy(patch, os.path.join(out_dir, "patch.diff"))
-        shutil.copy(demo, os.path.join(out_dir, "demo.py"))
-        meta["caught_by"] = [r["check"] for r in meta["ran"] if r["exit"] == 1]
-        with open(os.path.join(out_dir, "meta.json"), "w") as f:
+        for src, name in ((patch, "patch.diff"), (demo, "demo.py")):
+            dst = os.path.join(out_dir, name)
+            if os.path.abspath(src) != os.path.abspath(dst):
+                shutil.copy(src, dst)
+        # merge with earlier results for this seed (other checks / tiers)
+        mpath = os.path.join(out_dir, "meta.json")
+        if os.path.exists(mpath):
+            old = json.load(open(mpath))
+            keep = [r for r in old.get("ran", []) if (r["check"], r["tier"]) not in {(x["check"], x["tier"]) for x in meta["ran"]}]
+            meta["ran"] = keep + meta["ran"]
+            for k in ("needs_to_manifest", "breaks_property"):
+                if not os.environ.get("SEED_" + ("NEEDS" if k.startswith("needs") else "BREAKS")) and old.get(k):
+                    meta[k] = old[k]
+        meta["caught_by"] = sorted({r["check"] for r in meta["ran"] if r["exit"] == 1})
+        with open(mpath, "w") as f:
             json.dump(meta, f, indent=1)
     finally:
         for d in ("clean", "mut"):
